@@ -344,6 +344,42 @@ def main(tier):
         with ThreadPoolExecutor(max_workers=core.NCPU) as ex:
             for evs in ex.map(tool_rt, pick):
                 tool_events += evs
+        # texts that *begin* like one of the words the tools read as a moment of their own (now, today, date, time, tomo[rrow], yest[erday],
+        # yday): a literal word in front of the format, in every total length from the word's own up to 18 more (the word table is asked
+        # with a length), and month names of shipped locales that start that way; such a text is a value of the format, not the word
+        deco = []
+        simple = [f for f in fm if fstr(f) in ("%F", "%Y-%m-%d", "%d.%m.%Y", "%FT%T", "%Y-%m-%d %H:%M:%S")][:3] or fm[:1]
+        for word in ("now", "Now", "today", "TODAY", "date", "time", "tomo", "tomorrow", "yest", "yday", "yesterday", "Time"):
+            for k in range(0, 19):
+                for f in simple[: 1 if quick and k % 3 else len(simple)]:
+                    deco.append((f, word + "x" * k + " ", "", None))
+        names = []
+        for loc, tabs in sorted(locs.items()):
+            for key in ("lm", "am"):
+                for i, nm in enumerate(tabs.get(key, [])):
+                    if nm.lower().startswith(("now", "today", "date", "time", "tomo", "yest", "yday")):
+                        names.append((loc, "%B" if key == "lm" else "%b", i + 1, nm))
+        for loc, spec, mon, nm in names[: 6 if quick else 60]:
+            for k in range(0, 17):
+                deco.append(({"t": [spec, "%d", "%Y"], "s": [" ", " "], "k": "d", "cal": "ymd"}, "", " " + "x" * k if k else "", (loc, mon)))
+
+        def deco_rt(job):
+            f, pre, suf, lm = job
+            fs = pre + fstr(f) + suf
+            v = "2021-%02d-05" % lm[1] if lm else ("2012-03-04" if f["k"] == "d" else "2012-03-04T10:11:12")
+            canon = {"d": "%F", "t": "%T", "dt": "%FT%T"}[f["k"]]
+            la = ["--locale", lm[0]] if lm else []
+            li = ["--from-locale", lm[0]] if lm else []
+            p1 = core.run([dconv] + la + ["-f", fs, v], timeout=20, env={"LOCALE_FILE": locfile})
+            text = p1.stdout[:-1] if p1.stdout.endswith("\n") else p1.stdout
+            p2 = core.run([dconv] + li + ["-i", fs, "-f", canon, "--", text], timeout=20, env={"LOCALE_FILE": locfile})
+            got = p2.stdout.strip()
+            ok = p2.returncode == 0 and got == v
+            return {"e": "Round", "t": f["t"], "s": f["s"], "k": f["k"], "text": text[:80], "len": max(1, len(text)), "used": len(text) if ok else 0, "v": v,
+                    "p": got[:60] if got else "rc=%d" % p2.returncode, "src": "dconv-arg-word", "fmt": fs, "cal": f.get("cal", "ymd"), "pre": pre, "suf": suf}
+        with ThreadPoolExecutor(max_workers=core.NCPU) as ex:
+            word_events = list(ex.map(deco_rt, deco))
+        tool_events += word_events
         lib_events = [event(*x) for x in samp[:400]] + [event(*x) for x in bad[:40]]
         execs = [[{"e": "Reset"}] + [e] for e in lib_events + tool_events] + [[{"e": "Reset"}] + devs]
 
